@@ -354,7 +354,7 @@ class SSLinkCommandSource(Elaboratable):
 
 # ------------------------------------------------------------------ scripted partner (concrete framing, symbolic data)
 
-def packet_script(length=None, gaps=(), idle_after=0):
+def packet_script(length=None, gaps=(), idle_after=0, idle_kind="FREE"):
     """Cycle-by-cycle word kinds of one header packet (+ payload if length is not None).
     `gaps` = positions (indices into the gap-free word list) *before* which one invalid cycle is inserted
     (a position may be listed several times).  Returns a list of kind strings."""
@@ -368,7 +368,7 @@ def packet_script(length=None, gaps=(), idle_after=0):
     for i, k in enumerate(words):
         out += ["GAP"] * list(gaps).count(i)
         out.append(k)
-    return out + ["FREE"] * idle_after
+    return out + [idle_kind] * idle_after
 
 
 class SSScriptedSource(Elaboratable):
@@ -388,9 +388,13 @@ class SSScriptedSource(Elaboratable):
     def __init__(self, h, packets, prefix="p_", lead=0):
         p = self._p = prefix
         self.packets = packets
-        self.script = [("FREE", 0)] * lead          # (kind, packet index); `lead` FREE cycles first
+        # (kind, packet index); `lead` concrete logical-idle cycles first.  NOTE: FREE cycles (symbolic valid/data)
+        # make the DUT's "is this HPSTART?" decision symbolic, so they must not precede a packet whose CRC is
+        # checked (idle_kind="IDLE" gives concrete logical idle between packets instead)
+        self.script = [("IDLE", 0)] * lead
         for i, pk in enumerate(packets):
-            self.script += [(k, i) for k in packet_script(pk.get("length"), pk.get("gaps", ()), pk.get("idle_after", 0))]
+            self.script += [(k, i) for k in packet_script(pk.get("length"), pk.get("gaps", ()), pk.get("idle_after", 0),
+                                                         pk.get("idle_kind", "FREE"))]
         self.w = h.inp(p + "w", 32)            # junk / free traffic word
         self.wc = h.inp(p + "wc", 4)
         self.wv = h.inp(p + "wv", 1)           # free traffic valid
@@ -508,6 +512,8 @@ class SSScriptedSource(Elaboratable):
                         m.d.comb += [go.eq(0), self.gap.eq(1)]
                     elif kind == "FREE":
                         free()
+                    elif kind == "IDLE":
+                        m.d.comb += [go.eq(1), word.eq(0), wctrl.eq(0)]
                     elif kind == "HPSTART":
                         m.d.comb += [go.eq(1), word.eq(HPSTART[0]), wctrl.eq(HPSTART[1]), self.ev_hpstart.eq(1)]
                     elif kind in ("DW0", "DW1", "DW2"):
